@@ -83,6 +83,7 @@ func checkC08(p *Program, r *Result) {
 		fields = append(fields, f)
 	}
 	sort.Strings(fields)
+	lifted := map[string]ssa.Instruction{}
 	for _, f := range fields {
 		ss := byField[f]
 		construct := "increment of Statistics." + f
@@ -99,13 +100,34 @@ func checkC08(p *Program, r *Result) {
 			continue
 		}
 		s := ss[0]
+		// an increment inside an unexported accounting helper counts as sitting at the helper's call site, provided the
+		// helper increments on every path and has a single caller
+		var at ssa.Instruction = s.st
+		for lift := 0; lift < 3 && funcName(s.fn) != want[f] && p.transparent(s.fn); lift++ {
+			sites := p.staticCallers(s.fn)
+			if len(sites) != 1 {
+				break
+			}
+			always := true
+			for _, in := range instrsOf(s.fn) {
+				if ret, ok := in.(*ssa.Return); ok && !(at.Block() == ret.Block() || at.Block().Dominates(ret.Block())) {
+					always = false
+				}
+			}
+			if !always || inLoop(at.Block()) {
+				break
+			}
+			at = sites[0]
+			s.fn = sites[0].Parent()
+		}
+		lifted[f] = at
 		fname := funcName(s.fn)
 		pos := p.pos(s.st.Pos())
 		if fname != want[f] {
 			r.violated("C08.a", fname, construct, pos, "counter is incremented in "+fname+", not in "+want[f]+" which emits that record kind")
 			continue
 		}
-		if inLoop(s.st.Block()) {
+		if inLoop(at.Block()) {
 			r.violated("C08.a", fname, construct, pos, "increment sits in a loop")
 			continue
 		}
@@ -138,7 +160,7 @@ func checkC08(p *Program, r *Result) {
 			if len(sinkBlocks) == 0 {
 				afterWrite = true // Add* functions: every return
 			}
-			if afterWrite && !(s.st.Block() == ret.Block() || s.st.Block().Dominates(ret.Block())) {
+			if afterWrite && !(at.Block() == ret.Block() || at.Block().Dominates(ret.Block())) {
 				// Add*: the not-yet-known branch is the only place; returns on the already-known path are fine
 				if len(sinkBlocks) == 0 {
 					continue
@@ -155,10 +177,8 @@ func checkC08(p *Program, r *Result) {
 	// ---- m
 	if wm := p.lookupFunc(pkgMcap, "Writer.WriteMessage"); wm != nil {
 		var inc ssa.Instruction
-		for _, s := range byField["MessageCount"] {
-			if s.fn == wm {
-				inc = s.st
-			}
+		if at := lifted["MessageCount"]; at != nil && at.Parent() == wm {
+			inc = at
 		}
 		n := 0
 		for _, in := range instrsOf(wm) {
